@@ -223,6 +223,8 @@ def map(mapper, sequence, map_step=4):
         Curried version of this function
     '''
     if map_step == 1:
+        if getattr(mapper, '_jug_is_task_generator', False):
+            mapper = mapper.f
         return [Task(mapper, s) for s in sequence]
     blocks = []
     n = 0
@@ -264,6 +266,8 @@ def currymap(mapper, sequence, map_step=4):
         Uncurried version of this function
     '''
     if map_step == 1:
+        if getattr(mapper, '_jug_is_task_generator', False):
+            mapper = mapper.f
         return [Task(mapper, *s) for s in sequence]
     result = []
     for ss in _break_up(sequence, map_step):
